@@ -33,6 +33,7 @@ def run_check(prop, tier, seed):
     mod = importlib.import_module(f"pvm.props.{prop.lower()}")
     nshards = int(os.environ.get("PVM_SHARDS", getattr(mod, "SHARDS", {}).get(tier, 16)))
     watchdog = getattr(mod, "WATCHDOG", {}).get(tier, 900 if tier == "quick" else 3600)
+    shutil.rmtree(os.path.join(OUT, "replays", prop), ignore_errors=True)
     sdir = os.path.join(OUT, "shards", f"{prop}-{tier}-{seed}-{os.getpid()}")
     os.makedirs(sdir, exist_ok=True)
     procs = []
